@@ -556,6 +556,18 @@ impl QueryFilter {
                 }
             }
             PredicateValue::Int64(expected) => {
+                // An integer literal against a float column compares numerically
+                if column
+                    .as_primitive_opt::<arrow_array::types::Float64Type>()
+                    .is_some()
+                {
+                    return Self::apply_comparison(
+                        pred,
+                        column,
+                        &PredicateValue::Float64(*expected as f64),
+                        mask,
+                    );
+                }
                 if let Some(arr) = column.as_primitive_opt::<arrow_array::types::Int64Type>() {
                     for (i, val_opt) in arr.iter().enumerate() {
                         if mask[i] {
@@ -583,6 +595,23 @@ impl QueryFilter {
                                 (ColumnPredicate::NotEq(..), Some(v)) => {
                                     (v - expected).abs() >= f64::EPSILON
                                 }
+                                (ColumnPredicate::Lt(..), Some(v)) => v < *expected,
+                                (ColumnPredicate::LtEq(..), Some(v)) => v <= *expected,
+                                (ColumnPredicate::Gt(..), Some(v)) => v > *expected,
+                                (ColumnPredicate::GtEq(..), Some(v)) => v >= *expected,
+                                _ => false,
+                            };
+                        }
+                    }
+                } else if let Some(arr) =
+                    column.as_primitive_opt::<arrow_array::types::Int64Type>()
+                {
+                    // A float literal against an integer column compares numerically
+                    for (i, val_opt) in arr.iter().enumerate() {
+                        if mask[i] {
+                            mask[i] = match (pred, val_opt.map(|v| v as f64)) {
+                                (ColumnPredicate::Eq(..), Some(v)) => v == *expected,
+                                (ColumnPredicate::NotEq(..), Some(v)) => v != *expected,
                                 (ColumnPredicate::Lt(..), Some(v)) => v < *expected,
                                 (ColumnPredicate::LtEq(..), Some(v)) => v <= *expected,
                                 (ColumnPredicate::Gt(..), Some(v)) => v > *expected,
